@@ -53,7 +53,7 @@ fn pairs() -> u64 {
 fn plan(tier: Tier) -> Plan {
     match tier {
         Tier::Quick => Plan {
-            cases: pairs() + 3_000 + 6_000,
+            cases: pairs() + 10_000 + 40_000,
             time_cap_s: 40,
             case_timeout_s: 20,
             exhaustive: false,
@@ -523,7 +523,7 @@ fn run_case(seed: u64, idx: u64, tier: Tier, out: &mut CaseOut) {
     let n = space.len() as u64;
     let np = pairs();
     let ntriples = match tier {
-        Tier::Quick => 3_000,
+        Tier::Quick => 10_000,
         Tier::Thorough => 60_000,
     };
     if idx < np {
